@@ -47,5 +47,29 @@ Proof.
 Qed.
 Theorem model_run_check_clean cfg evs :
   length (run_obs step_opt (hinit cfg) evs) = length evs ->
-  run_check_keyed cfg evs (run_obs step_opt (hinit cfg) evs) = [].
-Proof. intros Hl. unfold run_check_keyed, run_check. rewrite (replay_own evs _ 0%nat Hl), model_satisfies_monitors. reflexivity. Qed.
+  run_check_keyed0 cfg evs (run_obs step_opt (hinit cfg) evs) = [].
+Proof. intros Hl. unfold run_check_keyed0, run_check. rewrite (replay_own evs _ 0%nat Hl), model_satisfies_monitors. reflexivity. Qed.
+
+(* ---- hasbo = 2: the script comes from the model of the backoff package (keyed.WithRetry, constant kind) ---- *)
+Lemma ceil_ms_mul k : Backoff.Model.ceil_ms (k * Backoff.Model.ms) = k.
+Proof.
+  unfold Backoff.Model.ceil_ms, Backoff.Model.ms.
+  replace (k * 1000000 + 1000000 - 1)%N with (999999 + k * 1000000)%N by lia.
+  rewrite N.div_add by discriminate. reflexivity.
+Qed.
+
+Lemma map_repeat_k {A B} (f : A -> B) x n : map f (repeat x n) = repeat (f x) n.
+Proof. induction n as [|n IH]; cbn [repeat map]; [reflexivity | now rewrite IH]. Qed.
+
+Lemma expand_real_constant v dl d rest :
+  expand (v :: dl :: 2 :: d :: rest)%N = (v :: dl :: 1 :: repeat (if N.eqb d 0 then 5000 else d) real_script_len)%N.
+Proof.
+  unfold expand, Backoff.Model.Construct. cbn [Backoff.Model.c_kind Backoff.Model.c_const]. rewrite N.eqb_refl.
+  unfold Backoff.Model.bo_script, Backoff.Model.bo_script_ns. cbn [Backoff.Model.p_kind Backoff.Model.p_cint].
+  rewrite map_repeat_k, ceil_ms_mul. reflexivity.
+Qed.
+
+Theorem model_run_check_clean_expanded cfg evs :
+  length (run_obs step_opt (hinit (expand cfg)) evs) = length evs ->
+  run_check_keyed cfg evs (run_obs step_opt (hinit (expand cfg)) evs) = [].
+Proof. intros Hl. unfold run_check_keyed. apply model_run_check_clean. exact Hl. Qed.
